@@ -1504,6 +1504,7 @@ Lemma resolved_reply : forall ovf pad xid ci hw mt yip router sid mask dns lease
   Forall route_ok routes -> Forall (fun r => ip_ok (snd (fst r)) /\ ip_ok (snd r)) routes -> Forall raw_ok extra ->
   src = match sid with Some _ => sid | None => router end -> to4 src = Some s4 ->
   exists rt payload view,
+    (routes = [] -> rt = []) /\
     (routes <> [] -> classless routes = Ok rt /\ ref_routes (length routes + 1) rt = Some (map route_view routes)) /\
     build_dhcp4_reply Repaired pad xid ci yip src hw mt (resolved_opts lease mask sid router dns rt routes extra) = Ok payload /\
     bytes_ok payload /\
@@ -1560,7 +1561,7 @@ Proof.
             | solve [destruct dns; [constructor|apply nz_Forall; assumption]] | solve [destruct routes; [constructor|assumption]] ]. }
   destruct Hcodes as [Hco Hbo].
   destruct (reply_decodes pad xid ci yip src hw mt opts Hx Hhw Hco) as [payload [view [Ep [Ev [V1 [V2 [V3 [V4 [V5 [V6 [V7 [V8 V9]]]]]]]]]]]].
-  exists rt, payload, view.
+  exists rt, payload, view. split; [intros E0; subst rt; rewrite E0; reflexivity|].
   pose proof (reply_bytes _ _ _ _ _ _ _ _ _ Oci Oyi Hsrc_ok Bhw Hbo Ep) as Bpayload.
   split; [|split; [exact Ep|split; [exact Bpayload|split; [|split; [exact Ev|]]]]].
   - intros Hne. subst rt. destruct routes as [|r0 rs]; [contradiction|]. split; [exact Ert0|exact Rrt0].
@@ -2424,4 +2425,130 @@ Lemma frame_ovf_refuses : forall v src dst sp dp payload s4 d4, to4 src = Some s
 Proof.
   intros v src dst sp dp payload s4 d4 Hs Hd Hl. unfold build_ipv4_udp_frame. rewrite Hs, Hd. cbn zeta.
   replace (65535 <? 20 + (8 + blen payload)) with true by (symmetry; apply N.ltb_lt; lia). reflexivity.
+Qed.
+
+(* ================================================================== configuration -> wire: ResolveV4 + buildResponseFromResolved *)
+Lemma nz_cons : forall c d, d <> [] -> nz c d = [(c, d)].
+Proof. intros c [|x r] H; [contradiction|reflexivity]. Qed.
+Lemma len4_nonempty : forall (b : bytes), length b = 4%nat -> b <> [].
+Proof. intros [|x r] H; [discriminate|discriminate]. Qed.
+Lemma filter_some_map : forall (dl : list bytes), filter (fun d : option bytes => match d with Some _ => true | None => false end) (map Some dl) = map Some dl.
+Proof. induction dl as [|d r IH]; [reflexivity|]. cbn [map filter]. rewrite IH. reflexivity. Qed.
+
+(* The connected-subnet scenario of a local DHCPv4 server: no AAA overrides, the offered address lies in a configured
+   IPv4 pool that names its gateway, server-id configured or defaulting to the router, IPv4 DNS servers, validated raw
+   pool options.  What the client decodes is exactly: message type, lease time (3600 when unset), the POOL's netmask,
+   server id, the POOL's gateway as router, the profile's DNS servers, the pool's raw options — in this order, nothing
+   else; and the frame verifies. *)
+Lemma resolve_reply_connected : forall ovf pad xid ci hw mt addr pf p nip nmask g g4 sid s4 dl opts,
+  xid < 4294967296 -> (length hw <= 16)%nat -> pf_lease pf < 4294967296 -> ip_ok ci -> bytes_ok hw -> bytes_ok addr ->
+  find_pool addr (pf_pools pf) = Some p -> pl_net p = Some (nip, nmask) -> length nmask = 4%nat -> bytes_ok nmask ->
+  pl_gw_set p = true -> pl_gw p = Some g -> bytes_ok g -> to4 (Some g) = Some g4 ->
+  sid = first_some (pf_sid pf) (Some g) -> ip_ok sid -> to4 sid = Some s4 ->
+  pf_unnumbered pf = false -> pf_dns pf = map Some dl -> Forall bytes_ok dl ->
+  pl_opts p = map (fun o => (fst o, Some (snd o))) opts -> Forall raw_ok opts ->
+  let cx := {| cx_addr := addr; cx_gw := None; cx_mask := None; cx_dns := [] |} in
+  let lease := if pf_lease pf =? 0 then 3600 else pf_lease pf in
+  let intended := [(51, put32 lease); (1, nmask); (54, s4); (3, g4)]
+                  ++ (match dl with [] => [] | _ => nz 6 (dns_data (map Some dl)) end) ++ opts in
+  exists payload view,
+    (blen payload <= 65507 ->
+       exists f, resolve_and_reply Repaired ovf pad xid ci hw mt cx pf = Ok (Some f) /\
+                 frame4_ok f payload /\ frame4_fields f s4 bcast 67 68 /\ firstn 2 (skipn 26 f) <> [0; 0]) /\
+    ref_decode4 payload = Some view /\ v_xid view = xid /\ v_yiaddr view = ip4_field (Some addr) /\ v_siaddr view = s4 /\
+    v_chaddr view = hw ++ zeros (16 - length hw) /\ v_end view = EndSeen (zeros pad) /\
+    (forall code, opt_value code (v_opts view) = concat (map snd (filter (has_code code) ((53, [mt mod 256]) :: intended)))) /\
+    ((length (dns_data (map Some dl)) <= 255)%nat -> v_opts view = (53, [mt mod 256]) :: intended).
+Proof.
+  intros ovf pad xid ci hw mt addr pf p nip nmask g g4 sid s4 dl opts Hx Hhw Hlease Oci Bhw Baddr Hfind Hnet Lm Bm Hset Hgw Bg Hg4
+         Esid Osid Hs4 Hunn Hdns Bdl Hopts Hraw cx lease intended.
+  pose proof (to4_length _ _ Hg4) as Lg4. pose proof (to4_length _ _ Hs4) as Ls4.
+  assert (Er : resolve_v4 cx pf =
+               {| rs_yip := Some addr; rs_mask := nmask; rs_router := Some g; rs_dns := map Some dl; rs_lease := lease; rs_sid := sid;
+                  rs_routes := []; rs_opts := opts |}).
+  { unfold resolve_v4. subst cx. cbn [cx_addr cx_gw cx_mask cx_dns]. rewrite Hfind, Hset, Hgw, Hunn, Hnet, Hdns, Hopts, filter_some_map.
+    cbn [fst snd]. rewrite <- Esid. f_equal.
+    clear. induction opts as [|[c d] r IH]; [reflexivity|]. cbn [map concat fst snd app]. rewrite IH. reflexivity. }
+  assert (Esrc : sid = match sid with Some _ => sid | None => Some g end).
+  { destruct sid; [reflexivity|]. destruct (pf_sid pf); discriminate. }
+  assert (Hsid_some : exists sb, sid = Some sb) by (destruct sid; [eauto|destruct (pf_sid pf); discriminate]).
+  destruct Hsid_some as [sb Esb].
+  assert (Odns : Forall ip_ok (map Some dl)) by (clear - Bdl; induction dl; [constructor|inversion Bdl; subst; constructor; auto]).
+  assert (Hl32 : lease < 4294967296) by (subst lease; destruct (N.eqb_spec (pf_lease pf) 0); lia).
+  destruct (resolved_reply ovf pad xid ci hw mt (Some addr) (Some g) sid nmask (map Some dl) lease [] opts sid s4
+              Hx Hhw Hl32 Oci Baddr Bg Osid Bhw Bm Odns (Forall_nil _) (Forall_nil _) Hraw Esrc Hs4)
+    as [rt [payload [view [Hrt0 [_ [Ep [Bp [Hframe [Ev [V1 [V2 [V3 [V4 [V5 [V6 [V7 [V8 V9]]]]]]]]]]]]]]]]].
+  assert (Eint : resolved_opts lease nmask sid (Some g) (map Some dl) rt [] opts = intended).
+  { unfold resolved_opts. subst intended. rewrite Esb. rewrite <- Esb. rewrite Hs4, Hg4. cbn [opt_bytes].
+    rewrite (nz_cons 1 nmask) by (apply len4_nonempty; assumption).
+    rewrite (nz_cons 54 s4) by (apply len4_nonempty; assumption). rewrite (nz_cons 3 g4) by (apply len4_nonempty; assumption).
+    destruct dl; reflexivity. }
+  rewrite Eint in *.
+  exists payload, view. split.
+  - intros Hl. destruct (Hframe Hl) as [f [Ef R]]. exists f. split; [|exact R]. unfold resolve_and_reply. rewrite Er.
+    cbn [rs_yip rs_router rs_sid rs_mask rs_dns rs_lease rs_routes rs_opts]. exact Ef.
+  - repeat split; try assumption. intros Hd. apply V9; [rewrite Lm; lia|exact Hd|rewrite (Hrt0 eq_refl); cbn; lia].
+Qed.
+
+(* The unnumbered point-to-point address model: /32 netmask and an RFC 3442 default route through the router *)
+Lemma resolve_reply_unnumbered : forall ovf pad xid ci hw mt addr pf p g g4 sid s4 dl opts,
+  xid < 4294967296 -> (length hw <= 16)%nat -> pf_lease pf < 4294967296 -> ip_ok ci -> bytes_ok hw -> bytes_ok addr ->
+  find_pool addr (pf_pools pf) = Some p -> pl_gw_set p = true -> pl_gw p = Some g -> bytes_ok g -> to4 (Some g) = Some g4 ->
+  sid = first_some (pf_sid pf) (Some g) -> ip_ok sid -> to4 sid = Some s4 ->
+  pf_unnumbered pf = true -> pf_dns pf = map Some dl -> Forall bytes_ok dl ->
+  pl_opts p = map (fun o => (fst o, Some (snd o))) opts -> Forall raw_ok opts ->
+  let cx := {| cx_addr := addr; cx_gw := None; cx_mask := None; cx_dns := [] |} in
+  let lease := if pf_lease pf =? 0 then 3600 else pf_lease pf in
+  let intended := [(51, put32 lease); (1, [255;255;255;255]); (54, s4); (3, g4)]
+                  ++ (match dl with [] => [] | _ => nz 6 (dns_data (map Some dl)) end) ++ [(121, 0 :: g4)] ++ opts in
+  ref_routes 2 (0 :: g4) = Some [(0, [], g4)] /\
+  exists payload view,
+    (blen payload <= 65507 ->
+       exists f, resolve_and_reply Repaired ovf pad xid ci hw mt cx pf = Ok (Some f) /\
+                 frame4_ok f payload /\ frame4_fields f s4 bcast 67 68 /\ firstn 2 (skipn 26 f) <> [0; 0]) /\
+    ref_decode4 payload = Some view /\ v_xid view = xid /\ v_yiaddr view = ip4_field (Some addr) /\
+    v_end view = EndSeen (zeros pad) /\
+    ((length (dns_data (map Some dl)) <= 255)%nat -> v_opts view = (53, [mt mod 256]) :: intended).
+Proof.
+  intros ovf pad xid ci hw mt addr pf p g g4 sid s4 dl opts Hx Hhw Hlease Oci Bhw Baddr Hfind Hset Hgw Bg Hg4
+         Esid Osid Hs4 Hunn Hdns Bdl Hopts Hraw cx lease intended.
+  pose proof (to4_length _ _ Hg4) as Lg4. pose proof (to4_length _ _ Hs4) as Ls4.
+  destruct g4 as [|ga [|gb [|gc [|gd [|]]]]]; try discriminate Lg4. set (g4 := [ga; gb; gc; gd]) in *.
+  set (z16 := Some (v4in6_prefix ++ [0; 0; 0; 0])).
+  assert (Ez : to4 z16 = Some [0; 0; 0; 0]) by reflexivity.
+  assert (Er : resolve_v4 cx pf =
+               {| rs_yip := Some addr; rs_mask := [255;255;255;255]; rs_router := Some g; rs_dns := map Some dl; rs_lease := lease; rs_sid := sid;
+                  rs_routes := [(0, z16, Some g)]; rs_opts := opts |}).
+  { unfold resolve_v4. subst cx. cbn [cx_addr cx_gw cx_mask cx_dns]. rewrite Hfind, Hset, Hgw, Hunn, Hdns, Hopts, filter_some_map.
+    cbn [fst snd]. rewrite <- Esid. f_equal.
+    clear. induction opts as [|[c d] r IH]; [reflexivity|]. cbn [map concat fst snd app]. rewrite IH. reflexivity. }
+  assert (Esrc : sid = match sid with Some _ => sid | None => Some g end).
+  { destruct sid; [reflexivity|]. destruct (pf_sid pf); discriminate. }
+  assert (Hsid_some : exists sb, sid = Some sb) by (destruct sid; [eauto|destruct (pf_sid pf); discriminate]).
+  destruct Hsid_some as [sb Esb].
+  assert (Odns : Forall ip_ok (map Some dl)) by (clear - Bdl; induction dl; [constructor|inversion Bdl; subst; constructor; auto]).
+  assert (Hl32 : lease < 4294967296) by (subst lease; destruct (N.eqb_spec (pf_lease pf) 0); lia).
+  assert (Hro : Forall route_ok [(0, z16, Some g)]).
+  { constructor; [|constructor]. unfold route_ok. rewrite Ez, Hg4. cbn [opt_bytes length]. repeat split; try lia; try exact Lg4. }
+  assert (Hrb : Forall (fun r : N * option bytes * option bytes => ip_ok (snd (fst r)) /\ ip_ok (snd r)) [(0, z16, Some g)]).
+  { constructor; [|constructor]. cbn [fst snd ip_ok]. split; [|exact Bg]. subst z16. cbn [ip_ok]. unfold v4in6_prefix, bytes_ok, byte. repeat constructor; lia. }
+  assert (B4 : bytes_ok [255; 255; 255; 255]) by (unfold bytes_ok, byte; repeat constructor; lia).
+  destruct (resolved_reply ovf pad xid ci hw mt (Some addr) (Some g) sid [255;255;255;255] (map Some dl) lease [(0, z16, Some g)] opts sid s4
+              Hx Hhw Hl32 Oci Baddr Bg Osid Bhw B4 Odns Hro Hrb Hraw Esrc Hs4)
+    as [rt [payload [view [_ [Hrt [Ep [Bp [Hframe [Ev [V1 [V2 [V3 [V4 [V5 [V6 [V7 [V8 V9]]]]]]]]]]]]]]]]].
+  destruct (Hrt ltac:(discriminate)) as [Ecl _].
+  assert (Ert : rt = 0 :: g4).
+  { cbn [classless] in Ecl. rewrite Ez, Hg4 in Ecl. vm_compute in Ecl. injection Ecl as <-. reflexivity. }
+  subst rt.
+  assert (Eint : resolved_opts lease [255;255;255;255] sid (Some g) (map Some dl) (0 :: g4) [(0, z16, Some g)] opts = intended).
+  { unfold resolved_opts. subst intended. rewrite Esb. rewrite <- Esb. rewrite Hs4, Hg4. cbn [opt_bytes nz].
+    rewrite (nz_cons 54 s4) by (apply len4_nonempty; assumption). rewrite (nz_cons 3 g4) by (apply len4_nonempty; assumption).
+    destruct dl; reflexivity. }
+  rewrite Eint in *.
+  split.
+  { reflexivity. }
+  exists payload, view. split.
+  - intros Hl. destruct (Hframe Hl) as [f [Ef R]]. exists f. split; [|exact R]. unfold resolve_and_reply. rewrite Er.
+    cbn [rs_yip rs_router rs_sid rs_mask rs_dns rs_lease rs_routes rs_opts]. exact Ef.
+  - repeat split; try assumption. intros Hd. apply V9; [cbn; lia|exact Hd|cbn; lia].
 Qed.
